@@ -445,6 +445,7 @@ svalue_t *safe_apply (const char *fun, object_t * ob, int num_arg, int where)
 {
   svalue_t *ret;
   error_context_t econ;
+  int64_t entry_eval_cost = eval_cost;	/* not modified after setjmp() */
 
   if (!save_context (&econ))
     return 0;
@@ -467,6 +468,11 @@ svalue_t *safe_apply (const char *fun, object_t * ob, int num_arg, int where)
       /* the saved stack pointer includes the arguments: drop them like apply() does */
       pop_n_elems (num_arg);
       ret = 0;
+      /* "Too long evaluation" renews eval_cost so that the error can be reported. The error
+       * ends here, but when we were called from LPC code (sprintf("%O") in a loop) that
+       * evaluation goes on: it has used up its budget, the next instruction says so. */
+      if (eval_cost > entry_eval_cost && econ.save_csp >= control_stack)
+        eval_cost = 1;
     }
   pop_context (&econ);
   return ret;
